@@ -70,9 +70,9 @@ Lemma accepted_entry g c o : accepted (adj_entry g c o) = match o with Some a =>
 Proof. destruct o as [a|]; cbn; [destruct (rejected g c a); reflexivity|reflexivity]. Qed.
 
 (* ---- announcement *)
-Lemma ann_R g st sp i pfx a p :
+Lemma ann_R g st sp i pfx a p t :
   R g st sp -> aget i (s_peers st) = Some p -> p_up p = true ->
-  R g (rib_apply g pfx (rejected g (p_conf p) a) (mkR (Some (p_conf p)) a (s_now st))
+  R g (rib_apply g pfx (rejected g (p_conf p) a) (mkR (Some (p_conf p)) a t)
          (set_peer i (mkPeer (p_conf p) (p_up p) (aset pfx (a, rejected g (p_conf p) a) (p_adjin p)) (p_view p)) st))
       (mkSp (sp_known sp) (sp_up sp) (upd (sp_adj sp) i (upd (sp_adj sp i) pfx (Some a))) (sp_loc sp)).
 Proof.
@@ -80,7 +80,7 @@ Proof.
   - apply peer_update_Jc; auto.
     + intros k Hk. apply aget_aset_other. congruence.
     + rewrite Hup, aget_aset_same. cbn. destruct (rejected g (p_conf p) a); reflexivity.
-  - intros j. pose proof (apply_static g pfx (rejected g (p_conf p) a) (mkR (Some (p_conf p)) a (s_now st))
+  - intros j. pose proof (apply_static g pfx (rejected g (p_conf p) a) (mkR (Some (p_conf p)) a t)
                             (set_peer i (mkPeer (p_conf p) (p_up p) (aset pfx (a, rejected g (p_conf p) a) (p_adjin p)) (p_view p)) st) j) as S.
     rewrite set_peer_get in S. specialize (P j). cbn [sp_known sp_up sp_adj].
     destruct (Z.eqb_spec j i) as [E|N]; [subst j|].
